@@ -165,7 +165,7 @@ def gen_lens(rng, nsurf=None, allow_mirror=True, allow_conic=True, allow_asphere
             R = abs(s['radius'])
             if rng.random() < 0.5:
                 s['surface_type'] = 'polynomial'
-                nr, nc = rng.choice([(3, 3), (3, 3), (1, 4), (2, 5), (3, 5), (4, 2), (5, 3), (4, 4)])
+                nr, nc = rng.choice([(3, 3), (3, 3), (1, 4), (2, 5), (3, 5), (4, 2), (5, 3), (4, 4), (3, 1), (4, 1)])
                 c = [[0.0] * nc for _ in range(nr)]
                 for i in range(nr):
                     for j in range(nc):
